@@ -61,7 +61,7 @@ func (mapiter) Describe() core.EngineInfo {
 		Real:       []string{"goatlang stringMap/numericMap (Set/Get/Delete/Len/Range, key-list compaction), NewMap, codes SET/GET/GETOK/DELETE/LEN/RANGE/ITER and fused FASTGET/FASTSET through the compiler and VM"},
 		Stubs:      []string{"Go's randomised map iteration inside the key-list compaction -> seeded permutation (hook verifOrderStrings/verifOrderFloats)"},
 		Assumes:    []string{"no order is required of a range", "NaN keys excluded (as the property says)", "+0 and -0 are one key (as in Go)"},
-		ProbesWant: []string{"compactions", "cursor_across_compaction", "reinsert", "delete_ahead_of_cursor", "delete_behind_cursor", "delete_current", "insert_during_loop", "nested_cursors", "driver_host", "driver_script", "exhausted", "abandoned"},
+		ProbesWant: []string{"compactions", "cursor_across_compaction", "reinsert", "delete_ahead_of_cursor", "delete_behind_cursor", "delete_current", "insert_during_loop", "nested_cursors", "driver_host", "driver_script", "maps_keys", "exhausted", "abandoned"},
 	}
 }
 
@@ -93,8 +93,12 @@ func (g *mGen) item(depth int, inLoop bool) MItem {
 		it.Kind, it.Key = "get", key
 	case k < 69:
 		it.Kind, it.Key = "getok", key
-	case k < 74:
+	case k < 72:
 		it.Kind = "len"
+	case k < 73:
+		it.Kind = "keys" // golang.org/x/exp/maps.Keys: a library function built on Range
+	case k < 74:
+		it.Kind = "clone" // maps.Clone, then the clone is compared and dropped
 	case k < 82 && inLoop:
 		it.Kind = "curdel"
 	case k < 88 && inLoop:
@@ -416,6 +420,38 @@ func (run *mRun) onLen(id, n int) {
 	run.note("l")
 }
 
+// onKeys: maps.Keys (or the keys of maps.Clone) must be exactly the live keys, each once.
+func (run *mRun) onKeys(id int, what string, ks goatlang.Value) {
+	seen := map[int]int{}
+	next := ks.Range()
+	for {
+		_, kv, ok := next()
+		if !ok {
+			break
+		}
+		k, known := run.p.keyOf(kv)
+		if !known {
+			run.fail("C10/live", "foreign-key", "op %d: %s returned %s, which was never a key of this map", id, what, describe(kv))
+			return
+		}
+		seen[k]++
+	}
+	for k, n := range seen {
+		if _, live := run.data[k]; !live {
+			run.fail("C10/live", "deleted-key", "op %d: %s returned key %d, which is deleted", id, what, k)
+		} else if n > 1 {
+			run.fail("C10/once", "twice", "op %d: %s returned key %d %d times", id, what, k, n)
+		}
+	}
+	for k := range run.data {
+		if seen[k] == 0 {
+			run.fail("C10/all", "missed", "op %d: %s does not contain the live key %d", id, what, k)
+		}
+	}
+	run.h.C.Inc("maps_keys")
+	run.note("k")
+}
+
 func (run *mRun) onStart(c int) {
 	cu := &mCursor{id: c, startGen: map[int]int{}, yielded: map[[2]int]bool{}, compAt: goatlang.VerifCompactions}
 	for k := range run.data {
@@ -509,6 +545,23 @@ func (run *mRun) hostBlock(m goatlang.Value, items []MItem, cu *mCursor, iter in
 			run.onGet(it.ID, it.Key, v, ok, true)
 		case "len":
 			run.onLen(it.ID, m.Len())
+		case "keys":
+			if r, err := run.h.Call("golang.org/x/exp/maps.Keys", 1, m); err == nil && len(r) == 1 {
+				run.onKeys(it.ID, "maps.Keys", r[0])
+			} else {
+				run.fail("C10/get", "keys-failed", "maps.Keys failed: %v", err)
+			}
+		case "clone":
+			if r, err := run.h.Call("golang.org/x/exp/maps.Clone", 1, m); err == nil && len(r) == 1 {
+				if r2, err := run.h.Call("golang.org/x/exp/maps.Keys", 1, r[0]); err == nil && len(r2) == 1 {
+					run.onKeys(it.ID, "maps.Clone", r2[0])
+				}
+				if r[0].Len() != len(run.data) {
+					run.fail("C10/get", "len", "op %d: the clone has %d entries, the map %d live keys", it.ID, r[0].Len(), len(run.data))
+				}
+			} else {
+				run.fail("C10/get", "clone-failed", "maps.Clone failed: %v", err)
+			}
 		case "curset":
 			if cu != nil && cu.hasCur {
 				m.Set(run.rawKey(cu.cur), run.p.elemValue(it.Vid))
@@ -574,6 +627,10 @@ func (p *MPlan) renderItems(b *strings.Builder, items []MItem, ind string, cur i
 			ln("host.GetOk(%d, g%d, o%d)", it.ID, it.ID, it.ID)
 		case "len":
 			ln("host.Len(%d, len(m))", it.ID)
+		case "keys":
+			ln("host.Keys(%d, 0, maps.Keys(m))", it.ID)
+		case "clone":
+			ln("host.Keys(%d, 1, maps.Keys(maps.Clone(m)))", it.ID)
 		case "curset":
 			if cur != 0 {
 				ln("m[k%d] = %s; host.Op(%d)", cur, p.elemLit(it.Vid), it.ID)
@@ -610,7 +667,7 @@ func (p *MPlan) renderItems(b *strings.Builder, items []MItem, ind string, cur i
 func (p *MPlan) render() string {
 	var b strings.Builder
 	_, _, ks, es := p.types()
-	b.WriteString("package main\nimport \"host\"\ntype T struct { A int }\nvar negZero = host.NegZero()\n")
+	b.WriteString("package main\nimport \"host\"\nimport \"golang.org/x/exp/maps\"\ntype T struct { A int }\nvar negZero = host.NegZero()\n")
 	fmt.Fprintf(&b, "var m = map[%s]%s{}\n", ks, es)
 	b.WriteString("func run() {\n")
 	for _, k := range p.Initial {
@@ -664,6 +721,9 @@ func (run *mRun) natives(vm *goatlang.VM) {
 		if it := run.items[a[0].Int()]; it != nil {
 			run.onGet(it.ID, it.Key, a[1], a[2].Bool(), true)
 		}
+	}))
+	vm.Set("host.Keys", goatlang.NewFunc(3, 0, func(v *goatlang.VM, a []goatlang.Value) {
+		run.onKeys(a[0].Int(), map[int]string{0: "maps.Keys", 1: "maps.Clone"}[a[1].Int()], a[2])
 	}))
 	vm.Set("host.Len", goatlang.NewFunc(2, 0, func(v *goatlang.VM, a []goatlang.Value) { run.onLen(a[0].Int(), a[1].Int()) }))
 	vm.Set("host.Start", goatlang.NewFunc(1, 0, func(v *goatlang.VM, a []goatlang.Value) { run.onStart(a[0].Int()) }))
